@@ -75,6 +75,17 @@ impl MemcacheTcpServer {
                             );
 
                             self.limit_connections.acquire().await.unwrap().forget();
+                            #[cfg(memcrs_verif)]
+                            crate::verif::note(
+                                "sem.acquire",
+                                None,
+                                [
+                                    peer_addr.port() as u64,
+                                    self.limit_connections.available_permits() as u64,
+                                    Arc::as_ptr(&self.limit_connections) as usize as u64,
+                                    0,
+                                ],
+                            );
                             // Like with other small servers, we'll `spawn` this client to ensure it
                             // runs concurrently with all other clients. The `move` keyword is used
                             // here to move ownership of our store handle into the async closure.
